@@ -40,7 +40,7 @@ ASSUMPTIONS = [
 MINIMUMS = {
     'quick': {'evaluations': 3000, 'calls': 8000, 'af_nested_depth>=2': 150, 'override_of_factory_param': 100,
               'af_invocations_checked': 3000, 'passthrough_identity_checked': 2000, 'nested_partial_probed': 200},
-    'thorough': {'evaluations': 60000, 'af_nested_depth>=2': 10000, 'override_of_factory_param': 4000},
+    'thorough': {'evaluations': 60000, 'af_nested_depth>=2': 4000, 'override_of_factory_param': 4000},
 }
 
 UID_FNS = [kinds.node, kinds.node2, kinds.posnode]
